@@ -582,6 +582,10 @@ func (x *Exec) execSelect(st *State, s *ast.SelectStmt) *State {
 	for _, c := range s.Body.List {
 		cc := c.(*ast.CommClause)
 		choice := x.fresh("select", SBool)
+		if c := x.ctxDoneRecv(st, cc.Comm); c != nil {
+			// receiving from ctx.Done() succeeds exactly when the context is cancelled
+			choice = c
+		}
 		bs := st.clone()
 		bs.pc = append(bs.pc, And(append(append([]*Term(nil), prev...), choice)...))
 		prev = append(prev, Not(choice))
@@ -603,6 +607,36 @@ func (x *Exec) execSelect(st *State, s *ast.SelectStmt) *State {
 	x.loops = x.loops[:len(x.loops)-1]
 	ends = append(ends, lc.breaks...)
 	return x.merge(n, ends)
+}
+
+// ctxDoneRecv: if comm receives from <ctx>.Done() of a context.Context, the
+// ghost predicate "ctx is cancelled" (nil otherwise).
+func (x *Exec) ctxDoneRecv(st *State, comm ast.Stmt) *Term {
+	var recv ast.Expr
+	switch cm := comm.(type) {
+	case *ast.ExprStmt:
+		recv = cm.X
+	case *ast.AssignStmt:
+		if len(cm.Rhs) == 1 {
+			recv = cm.Rhs[0]
+		}
+	}
+	ue, ok := ast.Unparen(recv).(*ast.UnaryExpr)
+	if recv == nil || !ok || ue.Op != token.ARROW {
+		return nil
+	}
+	call, ok := ast.Unparen(ue.X).(*ast.CallExpr)
+	if !ok {
+		return nil
+	}
+	sel, ok := ast.Unparen(call.Fun).(*ast.SelectorExpr)
+	if !ok || sel.Sel.Name != "Done" || typeStr(x.typeOf(sel.X)) != "context.Context" {
+		return nil
+	}
+	x.spec++
+	ctx := x.eval(st.clone(), sel.X)
+	x.spec--
+	return x.app("ctx.cancelled", SBool, ctx)
 }
 
 // ---------------------------------------------------------------- places
